@@ -94,7 +94,9 @@ def run_rounds(fedjax, name, case, order='listed', keys_seed=0, domain_of=None, 
       if order == 'reversed':
         co = co[::-1]
       keys = jax.random.split(jax.random.PRNGKey(keys_seed + r), len(dss))
-      clients = [(ids[c - 1], dss[c - 1], keys[c - 1]) for c in co]
+      # case['id_alias'] = {spec client: spec client whose ID it goes by}: one real client whose data changed between rounds
+      alias = case.get('id_alias') or {}
+      clients = [(ids[alias.get(c, c) - 1], dss[c - 1], keys[c - 1]) for c in co]
       state, diag = alg.apply(state, clients)
       rec['rounds'].append(params_of(state))
       rec['states'].append(state)
